@@ -138,7 +138,8 @@ def streams(tier, rng, P, only=None, cases=None):
             head = [0xF0, 0x41, 0x10, 0x42, 0x12]; between = [[rng.randrange(0, 128) for _ in range(rng.choice([0, 0, 1]))] for _ in range(ng)]
             text = ",".join("%02x" % b for b in head); exp = list(head)
             for g, bt in zip(groups, between):
-                text += ",{" + ",".join("%02x" % b for b in g) + "}"; exp += g + [(128 - sum(g) % 128) % 128]
+                # (blanks or a comment may stand before the brace that closes the group)
+                text += ",{" + ",".join("%02x" % b for b in g) + rng.choice(["", "", " ", "  ", "\t", " /* sum */", "/*x*/ "]) + "}"; exp += g + [(128 - sum(g) % 128) % 128]
                 if bt: text += "," + ",".join("%02x" % b for b in bt); exp += bt
             text += ",f7"; exp += [0xF7]
             src = "SysEx$=" + text + "; c"
